@@ -471,7 +471,8 @@ def determinism_gate(modname, v):
                            env=dict(os.environ, PYTHONHASHSEED='0', PYTHONPATH=f'{REPO}:{VERIF}'))
         if p.returncode != 0:
             return False, f'replay process failed: {p.stderr[-400:]}'
-        digs.append(p.stdout.strip())
+        digs.append(next((ln[len('CASE-DIGEST '):] for ln in reversed(p.stdout.splitlines()) if ln.startswith('CASE-DIGEST ')),
+                         p.stdout.strip()))
     fps = []
     for dg in digs:
         try:
